@@ -68,7 +68,8 @@ Section Items.
   Variable k : Q.
   Hypothesis Hk : 0 < k.
   Variable SR : FStyle XQ -> FStyle XQ -> Prop.
-  Hypothesis SR_weak : forall s s', SR s s' -> fstyle_wrel k s s'.
+  Variable crow : bool.        (* the direction of the container *)
+  Hypothesis SR_weak : forall s s', SR s s' -> fstyle_wrel k crow s s'.
   Notation L := (sc k).
   Notation O := (op_rel (sc k)).
   Notation A := (av_rel (sc k)).
@@ -137,13 +138,13 @@ Section Items.
     - apply sc_zero.
   Qed.
 
-  Lemma w_in_flow s s' : fstyle_wrel k s s' -> s_in_flow f_position f_bgm s' = s_in_flow f_position f_bgm s.
+  Lemma w_in_flow s s' : fstyle_wrel k crow s s' -> s_in_flow f_position f_bgm s' = s_in_flow f_position f_bgm s.
   Proof.
     intros Ws. wstyle_open Ws. unfold s_in_flow, s_hidden, s_absolute, f_position, f_bgm, f_gdisplay. rewrite Wdisp, Wpos. reflexivity.
   Qed.
-  Lemma w_hidden s s' : fstyle_wrel k s s' -> s_hidden f_bgm s' = s_hidden f_bgm s.
+  Lemma w_hidden s s' : fstyle_wrel k crow s s' -> s_hidden f_bgm s' = s_hidden f_bgm s.
   Proof. intros Ws. wstyle_open Ws. unfold s_hidden, f_bgm, f_gdisplay. rewrite Wdisp. reflexivity. Qed.
-  Lemma w_absolute s s' : fstyle_wrel k s s' -> s_absolute f_position s' = s_absolute f_position s.
+  Lemma w_absolute s s' : fstyle_wrel k crow s s' -> s_absolute f_position s' = s_absolute f_position s.
   Proof. intros Ws. wstyle_open Ws. unfold s_absolute, f_position. rewrite Wpos. reflexivity. Qed.
 
   Lemma rel_flex_items kc kc' ai st st' : kconst_rel k kc kc' -> Forall2 SR st st' -> Forall2 WR (flex_items kc ai st) (flex_items kc' ai st').
@@ -174,10 +175,10 @@ Section Items.
     sz_rel O kd kd' -> sz_rel O ps ps' -> sz_rel A av av' -> fin_rel k (mkFIn m sz ax kd ps av col) (mkFIn m sz ax kd' ps' av' col).
   Proof. intros. unfold fin_rel. cbn [qi_mode qi_sizing qi_axis qi_known qi_parent qi_avail qi_collapsible]. repeat match goal with |- _ /\ _ => split end; first [assumption|reflexivity]. Qed.
 
-  Lemma w_base_env kc kc' av av' w w' : kconst_rel k kc kc' -> sz_rel A av av' -> WR w w' ->
+  Lemma w_base_env kc kc' av av' w w' : k_row kc = crow -> kconst_rel k kc kc' -> sz_rel A av av' -> WR w w' ->
     benv_rel k (base_env kc av (to_child (w_style w)) (w_ci w)) (base_env kc' av' (to_child (w_style w')) (w_ci w')).
   Proof.
-    intros Hc Hav Hw. w_open Hw. pose proof (SR_weak _ _ Hwst) as Wst. wstyle_open Wst. apply Wenv; assumption.
+    intros Er Hc Hav Hw. w_open Hw. pose proof (SR_weak _ _ Hwst) as Wst. wstyle_open Wst. apply Wenv; assumption.
   Qed.
 
   Lemma rel_need_basis_query kc kc' w w' e e' : kconst_rel k kc kc' -> WR w w' -> benv_rel k e e' ->
@@ -189,10 +190,10 @@ Section Items.
     destruct (opt_or (be_style_basis e) _), (opt_or (be_style_basis e') _); cbn [op_rel] in Hx; try contradiction; reflexivity.
   Qed.
 
-  Lemma rel_base_asks kc kc' av av' w w' : kconst_rel k kc kc' -> sz_rel A av av' -> WR w w' ->
+  Lemma rel_base_asks kc kc' av av' w w' : k_row kc = crow -> kconst_rel k kc kc' -> sz_rel A av av' -> WR w w' ->
     Forall2 (fin_rel k) (base_asks kc av w) (base_asks kc' av' w').
   Proof.
-    intros Hc Hav Hw. pose proof (w_base_env _ _ _ _ _ _ Hc Hav Hw) as He. unfold base_asks.
+    intros Er Hc Hav Hw. pose proof (w_base_env _ _ _ _ _ _ Er Hc Hav Hw) as He. unfold base_asks.
     rewrite (rel_need_basis_query _ _ _ _ _ _ Hc Hw He). kconst_open Hc. rewrite Ekr.
     destruct He as (Hca & Hkn & Hpa & _).
     assert (Emc : avail_is_min_content (s_main (k_row kc) av') = avail_is_min_content (s_main (k_row kc) av)).
@@ -240,10 +241,10 @@ Section Items.
   Lemma rel_ans_cross row a a' : ans_rel k a a' -> L (ans_cross row a) (ans_cross row a').
   Proof. intros [H _]. unfold ans_cross. apply rel_s_cross. exact H. Qed.
 
-  Lemma rel_base_upd kc kc' av av' w w' a a' : kconst_rel k kc kc' -> sz_rel A av av' -> WR w w' -> Forall2 (ans_rel k) a a' ->
+  Lemma rel_base_upd kc kc' av av' w w' a a' : k_row kc = crow -> kconst_rel k kc kc' -> sz_rel A av av' -> WR w w' -> Forall2 (ans_rel k) a a' ->
     WR (base_upd kc av w a) (base_upd kc' av' w' a').
   Proof.
-    intros Hc Hav Hw Ha. pose proof (w_base_env _ _ _ _ _ _ Hc Hav Hw) as He. unfold base_upd. kconst_open Hc. rewrite Ekr.
+    intros Er Hc Hav Hw Ha. pose proof (w_base_env _ _ _ _ _ _ Er Hc Hav Hw) as He. unfold base_upd. kconst_open Hc. rewrite Ekr.
     destruct Ha as [|x x' l l' Hx Hl]; [exact Hw|]. destruct Hl as [|y y' m m' Hy Hm].
     - apply rel_set_fi; [exact Hw|]. apply rel_base_finish; try assumption; [apply sc_zero|apply rel_ans_main; exact Hx].
     - apply rel_set_fi; [exact Hw|]. apply rel_base_finish; try assumption; apply rel_ans_main; assumption.
@@ -306,7 +307,8 @@ Section MainSize.
   Variable k : Q.
   Hypothesis Hk : 0 < k.
   Variable SR : FStyle XQ -> FStyle XQ -> Prop.
-  Hypothesis SR_weak : forall s s', SR s s' -> fstyle_wrel k s s'.
+  Variable crow : bool.        (* the direction of the container *)
+  Hypothesis SR_weak : forall s s', SR s s' -> fstyle_wrel k crow s s'.
   (* the floor of the scaled shrink factor, a length *)
   Variables tau tau' : XQ.
   Hypothesis Htau : sc k tau tau'.
@@ -481,7 +483,7 @@ Section MainSize.
     split; hm k Hk.
   Qed.
 
-  Lemma rel_with_main_size s s' kc kc' om om' im im' : fstyle_wrel k s s' -> kconst_rel k kc kc' -> L om om' -> L im im' ->
+  Lemma rel_with_main_size s s' kc kc' om om' im im' : fstyle_wrel k crow s s' -> kconst_rel k kc kc' -> L om om' -> L im im' ->
     kconst_rel k (with_main_size s kc om im) (with_main_size s' kc' om' im').
   Proof.
     intros Ws Hc Hom Him. wstyle_open Ws. kconst_open Hc. unfold with_main_size, kconst_rel.
